@@ -215,7 +215,7 @@ func propSwapMelt(t *rapid.T) {
 		}
 		return fmt.Errorf("HTTP %d %s", r.Status, r.Body)
 	}
-	condMode := rapid.SampledFrom([]string{"independent", "independent", "same", "same", "same_mixed_flags", "same_other_lock_key", "canonical_sig_all"}).Draw(t, "conditions")
+	condMode := rapid.SampledFrom([]string{"independent", "independent", "same", "same", "same_mixed_flags", "same_other_lock_key", "same_other_locktime", "same_other_refund", "canonical_sig_all", "canonical_sig_all"}).Draw(t, "conditions")
 	// canonical_sig_all: a homogeneous SIG_ALL request exactly as the library's helpers would build it - the case for
 	// which the statement promises acceptance (by swap; refusal by melt, which must leave the inputs swappable)
 	canonicalCase := condMode == "canonical_sig_all"
@@ -228,7 +228,7 @@ func propSwapMelt(t *rapid.T) {
 	if canonicalCase {
 		nPlain = 0
 	}
-	mixed := condMode == "same_mixed_flags" || condMode == "same_other_lock_key"
+	mixed := condMode == "same_mixed_flags" || condMode == "same_other_lock_key" || condMode == "same_other_locktime" || condMode == "same_other_refund"
 	if mixed {
 		// aim at the SIG_ALL uniformity rule itself: several locked inputs and mostly nothing else that could get the
 		// request refused (no plain inputs, canonical input witnesses, properly signed outputs)
@@ -243,12 +243,15 @@ func propSwapMelt(t *rapid.T) {
 		c := lockgen.GenConfig(t, "P2PK")
 		c.Malformed = ""
 		if i == 0 {
-			if condMode == "same_other_lock_key" || canonicalCase {
+			if condMode == "same_other_lock_key" || condMode == "same_other_locktime" || condMode == "same_other_refund" || canonicalCase {
 				c.Sigflag = "SIG_ALL"
+			}
+			if condMode == "same_other_locktime" && c.Locktime == "past" {
+				c.Locktime = "future"
 			}
 			if canonicalCase {
 				for tries := 0; tries < 8; tries++ {
-					if _, ok := canonicalElems(c); ok && c.Locktime != "past" && len(c.Secret()) <= 500 {
+					if _, ok := canonicalElems(c); ok && len(c.Secret()) <= 500 {
 						break
 					}
 					c = lockgen.GenConfig(t, "P2PK")
@@ -263,6 +266,18 @@ func propSwapMelt(t *rapid.T) {
 			if condMode == "same_mixed_flags" {
 				// same keys and threshold, but not every input carries SIG_ALL
 				c.Sigflag = rapid.SampledFrom([]string{"absent", "SIG_INPUTS", "SIG_ALL"}).Draw(t, "mixed_sigflag")
+			}
+			if condMode == "same_other_locktime" {
+				// same keys, threshold and flag; the locktime differs (absent vs a day ahead, or two days ahead)
+				if base.Locktime == "absent" {
+					c.Locktime = "future"
+				} else {
+					c.Locktime = rapid.SampledFrom([]string{"absent", "future2"}).Draw(t, "other_locktime")
+				}
+			}
+			if condMode == "same_other_refund" {
+				// same everything but the refund keys
+				c.NRefund = (base.NRefund + 1 + rapid.IntRange(0, 1).Draw(t, "other_refund")) % 3
 			}
 			if condMode == "same_other_lock_key" {
 				// same flags, threshold and co-signers, but locked to somebody else's key (witness by that key)
@@ -350,6 +365,9 @@ func propSwapMelt(t *rapid.T) {
 		if condMode == "same_other_lock_key" {
 			rec.Class("e2e_sig_all_inputs_locked_to_different_keys")
 		}
+		if condMode == "same_other_locktime" || condMode == "same_other_refund" {
+			rec.Class("e2e_sig_all_inputs_" + condMode)
+		}
 	}
 	rec.Class(fmt.Sprintf("e2e_target=%s_sig_all=%v", target, sigAllAny))
 	rec.NonTrivial(cls + fmt.Sprint(perm, locked[0].elems, locked[0].cfg.NSigs, locked[0].cfg.Locktime))
@@ -390,6 +408,16 @@ func propSwapMelt(t *rapid.T) {
 	if (mixed && rapid.IntRange(0, 3).Draw(t, "mixed_sign_outputs") > 0) || canonicalCase {
 		outMode = "threshold"
 	}
+	expiredCanonical := canonicalCase && locked[0].cfg.Locktime == "past"
+	if expiredCanonical {
+		// after the locktime the refund rule is all there is: the refund key signs inputs and outputs with the
+		// library's helpers; without refund keys anybody may spend and nothing needs a signature
+		outMode = "helper_refund_key"
+		if locked[0].cfg.NRefund == 0 {
+			outMode = "unsigned"
+		}
+		rec.Class("e2e_canonical_sig_all_expired_" + outMode)
+	}
 	if canonicalCase {
 		rec.Class("e2e_canonical_sig_all_target=" + target)
 	}
@@ -397,6 +425,11 @@ func propSwapMelt(t *rapid.T) {
 	switch outMode {
 	case "helper_lock_key":
 		msgs, err = nut11.AddSignatureToOutputs(msgs, lockgen.K(lockgen.LockKey).Priv)
+		if err != nil {
+			t.Fatalf("AddSignatureToOutputs: %v", err)
+		}
+	case "helper_refund_key":
+		msgs, err = nut11.AddSignatureToOutputs(msgs, lockgen.K(lockgen.Refund0).Priv)
 		if err != nil {
 			t.Fatalf("AddSignatureToOutputs: %v", err)
 		}
@@ -473,6 +506,9 @@ func propSwapMelt(t *rapid.T) {
 	// sufficiency: canonical helper witnesses
 	canonicalSigAll := anySA && nPlain == 0 && sameCond && allSigAllCanonical(locked) && (outMode == "helper_lock_key" || outMode == "threshold") && locked[0].cfg.Locktime != "past" &&
 		(outMode == "threshold" || locked[0].cfg.NSigs <= 1)
+	if expiredCanonical && anySA && sameCond && allSigAllCanonical(locked) {
+		canonicalSigAll = true
+	}
 	if !accepted && allSuff && (!anySA || canonicalSigAll) {
 		violate(t, fmt.Sprintf("e2e|swap_sufficient_witness_rejected|sig_all=%v|outputs=%s", anySA, outMode), "rejected (%v); secrets %v witnesses %v output witnesses %v", err, secrets, witnesses(inputs), ows)
 	}
